@@ -28,8 +28,9 @@ def merge_cases(behs):
             helper += [s for s in b["steps"]]
             continue
         cid = case_id(b)
-        cases.setdefault(cid, {"case": cid, "sub": b["sub"], "v": b["v"], "klen": b["klen"], "fp": b["fp"],
-                               "m": b["m"], "mi": b["mi"], "fpo": b["fpo"], "n": b["n"]})
+        c = cases.setdefault(cid, {"case": cid, "sub": b["sub"], "v": b["v"], "klen": b["klen"], "fp": b["fp"]})
+        if "m" in b:
+            c.update(m=b["m"], mi=b["mi"], fpo=b["fpo"], n=b["n"])
         tails.setdefault(cid, set()).add(tuple(json.dumps(s, sort_keys=True) for s in b["steps"][1:]))
     order = {"same": 0, "other": 1, "none": 2}
     for cid, c in cases.items():
